@@ -50,7 +50,9 @@ pub struct Case {
     pub panic_at: Option<usize>,
     /// history before the call under test (the routine must not remember anything):
     /// 0 none; 1 the same routine at the same point with a different map;
-    /// 2 a Newton solve (finite-difference Jacobian) that converges onto the point
+    /// 2 a Newton solve (finite-difference Jacobian) that converges onto the point;
+    /// 3 the same routine at the same point through the SAME closure object, whose captured
+    ///   state makes it a different map for that one call
     pub prelude: u8,
     /// the user map itself calls the Jacobian routine (of another small map) during each
     /// evaluation — legal re-entrant use (a Hessian-like computation, a nested solve)
@@ -239,8 +241,12 @@ fn run_prelude(case: &Case) {
 fn run_real(case: &Case) -> Outcome {
     run_prelude(case);
     let hist = RefCell::new(History::default());
+    let decoy = std::cell::Cell::new(false);
     let res = if !case.cmplx {
         let f = |x: Vec64| -> Vec64 {
+            if decoy.get() {
+                return Vector::<f64>::create((0..case.m).map(|i| 7.0 + i as f64 + 0.0 * x.vec.len() as f64).collect());
+            }
             let class = classify(case, &x.vec);
             let idx = {
                 let mut h = hist.borrow_mut();
@@ -263,6 +269,11 @@ fn run_real(case: &Case) -> Outcome {
             Vector::<f64>::create(answer(case, &x.vec, class))
         };
         let point = Vector::<f64>::create(case.point.clone());
+        if case.prelude == 3 {
+            decoy.set(true);
+            let _ = catch(|| Mat64::jacobian(point.clone(), &f, case.delta));
+            decoy.set(false);
+        }
         catch(|| {
             let j: Mat64 = Mat64::jacobian(point, &f, case.delta);
             let (r, c) = (j.rows(), j.cols());
@@ -278,6 +289,9 @@ fn run_real(case: &Case) -> Outcome {
         })
     } else {
         let f = |z: Vector<Cmplx>| -> Vector<Cmplx> {
+            if decoy.get() {
+                return Vector::<Cmplx>::create((0..case.m).map(|i| Cmplx::new(7.0 + i as f64, z.vec.len() as f64)).collect());
+            }
             let flat: Vec<f64> = z.vec.iter().flat_map(|c| [c.real, c.imag]).collect();
             let class = classify(case, &flat);
             let idx = {
@@ -302,6 +316,11 @@ fn run_real(case: &Case) -> Outcome {
             Vector::<Cmplx>::create(a.chunks(2).map(|p| Cmplx::new(p[0], p[1])).collect())
         };
         let point = Vector::<Cmplx>::create(case.point.chunks(2).map(|p| Cmplx::new(p[0], p[1])).collect());
+        if case.prelude == 3 {
+            decoy.set(true);
+            let _ = catch(|| Matrix::<Cmplx>::jacobian_cmplx(point.clone(), &f, case.delta));
+            decoy.set(false);
+        }
         catch(|| {
             let j: Matrix<Cmplx> = Matrix::<Cmplx>::jacobian_cmplx(point, &f, case.delta);
             let (r, c) = (j.rows(), j.cols());
@@ -435,8 +454,8 @@ impl Prop for C18 {
     }
     fn runs(&self, tier: Tier) -> u64 {
         match tier {
-            Tier::Quick => 200_000,
-            Tier::Thorough => 12_000_000,
+            Tier::Quick => 1_000_000,
+            Tier::Thorough => 40_000_000,
         }
     }
 
@@ -473,7 +492,7 @@ impl Prop for C18 {
                 panic_at = Some(frng.usize_below(n + 1));
             }
         }
-        let prelude = if dyadic_forced { 0 } else { match frng.below(10) { 0 | 1 => 1, 2 | 3 => 2, _ => 0 } };
+        let prelude = if dyadic_forced { 0 } else { match frng.below(20) { 0 | 1 => 1, 2..=4 => 2, 5..=7 => 3, _ => 0 } };
         let reentrant = !dyadic_forced && frng.chance(0.1);
         Case { cmplx, m, n, point, delta, dyadic, kind, faults, panic_at, prelude, reentrant }
     }
@@ -518,6 +537,7 @@ impl Prop for C18 {
         match case.prelude {
             1 => stats.count("probe.history_previous_jacobian_same_point"),
             2 => stats.count("probe.history_newton_solve_onto_point"),
+            3 => stats.count("probe.history_same_closure_other_map"),
             _ => {}
         }
         if case.dyadic {
@@ -713,7 +733,7 @@ impl Prop for C18 {
                 "value": match f.value { 0 => "NaN", 1 => "+Inf", _ => "-Inf" },
             })).collect::<Vec<_>>(),
             "callback_panics_at_evaluation": case.panic_at,
-            "history_before_call": match case.prelude { 1 => "same routine, same point, different map", 2 => "Newton solve (finite-difference Jacobian) of x - point = 0 converging onto the point", _ => "none" },
+            "history_before_call": match case.prelude { 3 => "same routine, same point, same closure object acting as a different map", 1 => "same routine, same point, different map", 2 => "Newton solve (finite-difference Jacobian) of x - point = 0 converging onto the point", _ => "none" },
             "prelude": case.prelude,
             "callback_calls_the_jacobian_routine_itself": case.reentrant,
         })
@@ -761,7 +781,7 @@ impl Prop for C18 {
     }
 
     fn required_probes(&self, _tier: Tier) -> Vec<&'static str> {
-        vec!["m_lt_n", "m_gt_n", "m_eq_n", "complex", "real", "kind_affine", "kind_smooth", "kind_table", "exact_arithmetic", "rounded_arithmetic", "fault_reached_entry", "history_previous_jacobian_same_point", "history_newton_solve_onto_point", "reentrant_callback"]
+        vec!["m_lt_n", "m_gt_n", "m_eq_n", "complex", "real", "kind_affine", "kind_smooth", "kind_table", "exact_arithmetic", "rounded_arithmetic", "fault_reached_entry", "history_previous_jacobian_same_point", "history_newton_solve_onto_point", "history_same_closure_other_map", "reentrant_callback"]
     }
 }
 
